@@ -1,7 +1,7 @@
 (* C17: instantiation of the generic field / polynomial / Reed-Solomon theorems
    at every field the library constructs (tables dumped from /repo by gotab). *)
 From Coq Require Import FMapPositive.
-From Verif Require Import Prelude GFM TabGF GFSpec GFP PolyP PolyCoefP RSP.
+From Verif Require Import Prelude GFM TabGF GFSpec GFP PolyP PolyCoefP RSP RSUniqueP.
 
 (* the dumped run-time tables are exactly what the model of NewGaloisField
    builds from the primitive polynomials of the standards *)
@@ -128,6 +128,19 @@ Proof.
   destruct (rs_encode_valid f data k Hok Hk Hb Hd) as (ecc2 & Hf2 & Hlen & Hr & Hroots).
   assert (ecc2 = ecc) by congruence. subst ecc2.
   exists cache, c', ecc. repeat split; auto.
+Qed.
+
+(* ... and these are the ONLY k symbols with that property, as long as the k roots
+   are distinct (base + k <= size - 1) *)
+Theorem rs_unique : forall f, In f library_fields ->
+  forall data k ecc ecc', 1 <= k -> gf_base f + k <= gf_size f - 1 ->
+  Forall (in_field f) data -> Forall (in_field f) ecc -> Forall (in_field f) ecc' ->
+  zlength ecc = k -> zlength ecc' = k ->
+  (forall i, 0 <= i < k -> poly_eval f (data ++ ecc) (tget (gf_alog f) (gf_base f + i)) = 0) ->
+  (forall i, 0 <= i < k -> poly_eval f (data ++ ecc') (tget (gf_alog f) (gf_base f + i)) = 0) ->
+  ecc = ecc'.
+Proof.
+  intros f Hin. apply rs_check_symbols_unique. apply lib_ok. exact Hin.
 Qed.
 
 (* non-vacuity: QR's field is a library field, and a concrete request history *)
